@@ -3,6 +3,7 @@
 Implementation entry points driven (real code from $VERIF_REPO/src):
   hd.imread (eager / lazy; path, bytes, file object, BytesIO), hd.Image.from_dataset,
   Image.get_stored_frame / get_stored_frames / pixel_array / get_raw_frame,
+  Image.get_frames / get_frame with every transform switched off,
   highdicom.frame.decode_frame, highdicom.io.ImageFileReader.read_frame / read_frame_raw
   (and through them _standardize_frame_index, _read_metadata, _get_bot, _read_bot,
   _build_bot, _read_eot).
@@ -45,9 +46,12 @@ MODELLED = ('image._standardize_frame_index, get_raw_frame (native byte range in
             'the same for a lazily read image (Image.pixel_array lazy branch: self._pixel_array validated against '
             'get_image_pixel_ids, dropped and re-read when stale); encapsulated streams at BYTE level (fragment payloads, _build_bot marker detection FF D8 / '
             'FF 4F, b"".join(fragments)) through ImageFileReader.read_frame_raw and through hd.imread(lazy).get_raw_frame; '
-            'native read_frame_raw on the bytes of the file (_read_metadata header_offset 8 / 12, trailing elements)')
+            'native read_frame_raw on the bytes of the file (_read_metadata header_offset 8 / 12, trailing elements); '
+            'get_stored_frames and get_frames (transforms off: same case split incl. the number_of_frames == 1 test of the '
+            'D108 fix) for requests in ANY order / with repeats / of any length, on the in-memory and the lazily read '
+            'image, cold and warm (batch_order, and as read ops of history / lazy_history)')
 STRATA = ['native', 'index', 'reader_index', 'reader_neg', 'raw422', 'encaps', 'encaps_bad', 'codec', 'codec1', 'fixture',
-          'planar', 'history', 'lazy_history']
+          'planar', 'history', 'lazy_history', 'batch_order']
 NOT_EXECUTED = ['JPEG 2000 fixtures (no openjpeg codec installed, none decodable here)',
                 'big-endian transfer syntaxes (rejected by _check_little_endian)']
 RULE = ('native: BitsAllocated 1/8/16/32 x signed x 1|3 samples x 1..6 frames, rows/cols 1..7 (every residue of '
@@ -72,7 +76,16 @@ RULE = ('native: BitsAllocated 1/8/16/32 x signed x 1|3 samples x 1..6 frames, r
         'finding D105, fixed) and not (cold). encaps / encaps_bad: returned BYTES '
         'compared, reader and lazily read Image (frame numbers and indices); reader_index: 40 % of the files carry a '
         'Data Set Trailing Padding element after PixelData. non-trivial = more than one frame or a '
-        'rejected request (history: at least one edit)')
+        'rejected request (history: at least one edit). batch_order: native mono / bit-packed / colour (both planar '
+        'configurations) images of 1..8 frames opened four ways (in-memory or eagerly read cold, the same after '
+        'pixel_array, lazily read cold, lazily read after pixel_array) x 3 requests per image drawn from the order '
+        'classes rotation (k-cycle, k >= 3), shuffle (sparse or full), repeat, long (longer than the image), '
+        'ascending, descending, pairwise swapped, single, invalid (one number outside the image at a random '
+        'position) x frame numbers | indices x list | tuple | one-shot iterator | numpy array, through '
+        'get_stored_frames and get_frames(dtype=int64, all transforms off); the images live on from request to '
+        'request; single-frame colour images with a warm cache included (D108). The same request classes are the '
+        'batch / frames reads of history and lazy_history, and every codec / fixture case is also read by a '
+        'shuffled + repeated batch first on a fresh image and by get_frames cold and warm (oracle only)')
 
 _TMP = None
 
@@ -215,6 +228,71 @@ def _planar_fields(rng, small=False):
     return f
 
 
+ORDER_CLASSES = ['rotation', 'shuffle', 'repeat', 'long', 'ascending', 'descending', 'swap', 'single', 'invalid']
+HARD_ORDERS = ['rotation', 'shuffle', 'repeat', 'long']      # sorting permutation usually not an involution
+ARG_TYPES = ['list', 'list', 'tuple', 'iter', 'nparray']
+
+
+def _request(rng, n, ai, cls=None, maxlen=8):
+    """A list of frame numbers (indices if ai) of an n-frame image in one of the order classes."""
+    base = 0 if ai else 1
+    nums = list(range(base, base + n))
+    cls = cls or rng.choice(ORDER_CLASSES)
+    top = max(1, min(n, maxlen))
+    if cls == 'single' or n == 1 and cls in ('rotation', 'shuffle', 'ascending', 'descending', 'swap'):
+        return [rng.choice(nums)] * (1 if cls == 'single' or rng.random() < 0.5 else rng.randint(2, 3))
+    if cls == 'rotation':       # k ascending numbers (consecutive or sparse) rotated: a k-cycle
+        k = rng.randint(min(3, top), top)
+        sub = sorted(rng.sample(nums, k))
+        r = rng.randint(1, max(1, k - 1))
+        return sub[r:] + sub[:r]
+    if cls == 'shuffle':
+        k = rng.randint(min(3, top), top)
+        return rng.sample(nums, k)
+    if cls == 'repeat':         # e.g. 3 3 1 3
+        k = rng.randint(3, max(3, min(maxlen, n + 2)))
+        fs = [rng.choice(nums) for _ in range(k)]
+        fs[rng.randrange(1, k)] = fs[0]
+        return fs
+    if cls == 'long':
+        return [rng.choice(nums) for _ in range(rng.randint(n + 1, max(n + 1, min(2 * n, maxlen))))]
+    if cls in ('ascending', 'descending', 'swap'):
+        fs = sorted(rng.sample(nums, rng.randint(min(2, top), top)))
+        if cls == 'descending':
+            fs.reverse()
+        elif cls == 'swap':
+            for j in range(0, len(fs) - 1, 2):
+                fs[j], fs[j + 1] = fs[j + 1], fs[j]
+        return fs
+    if cls == 'invalid':
+        fs = rng.sample(nums, rng.randint(1, top))
+        fs.insert(rng.randint(0, len(fs)), rng.choice([base - 1, base + n, base + n + 2, -n]))
+        return fs
+    raise ValueError(cls)
+
+
+def _batch_order_case(rng, n=None, colour=None):
+    """One small native image + three batch requests (frame numbers, as_indices, argument type)."""
+    colour = (rng.random() < 0.35) if colour is None else colour
+    if colour:
+        f = _planar_fields(rng, small=True)
+        f['rows'], f['cols'] = rng.choice([(1, 1), (1, 2), (2, 1)])
+    else:
+        f = _native_fields(rng)
+        f['rows'], f['cols'] = rng.choice([(1, 1), (1, 2), (2, 1), (1, 3), (3, 1), (2, 2), (1, 5), (5, 1)])
+    f['n'] = n or rng.choice([3, 3, 4, 5, 6, 6, 8])
+    f['single_iod'] = False
+    f.setdefault('planar', 0)
+    f['pd'] = bytes(rng.randrange(256) for _ in range(_pd_len(f['bits'], f['rows'] * f['cols'] * f['spp'], f['n']))).hex()
+    reqs = []
+    for j in range(3):
+        ai = rng.random() < 0.4
+        cls = rng.choice(HARD_ORDERS) if j == 0 else rng.choice(ORDER_CLASSES)
+        reqs.append([_request(rng, f['n'], ai, cls), ai, rng.choice(ARG_TYPES)])
+    f['reqs'] = reqs
+    return f
+
+
 HEADER_KEYS = ('bs', 'signed', 'rows', 'cols', 'planar', 'n', 'bits')
 
 
@@ -245,18 +323,15 @@ def _history_case(rng, lazy=False):
         return (rng.randrange(n) if ai else rng.randint(1, n)), ai
 
     def read(kind=None):
-        kind = kind or rng.choice(['one', 'one', 'batch', 'whole', 'raw', 'decraw'])
+        kind = kind or rng.choice(['one', 'one', 'batch', 'batch', 'frames', 'whole', 'raw', 'decraw'])
         if kind == 'whole':
             return ['whole']
         n = cur['n']
-        if kind == 'batch':
-            if rng.random() < 0.3:
-                return ['batch', None, False]
+        if kind in ('batch', 'frames'):     # get_stored_frames / get_frames (transforms off)
+            if rng.random() < 0.25:
+                return [kind, None, rng.random() < 0.3]
             ai = rng.random() < 0.4
-            fs = [(rng.randrange(n) if ai else rng.randint(1, n)) for _ in range(rng.randint(1, 3))]
-            if rng.random() < 0.1:
-                fs[rng.randrange(len(fs))] = n + 1
-            return ['batch', fs, ai]
+            return [kind, _request(rng, n, ai, maxlen=6), ai]
         fnum, ai = num()
         return [kind, fnum, ai]
 
@@ -394,7 +469,16 @@ def gen_cases(rng, tier):
     for _ in range(40 * k):
         cases.append(dict(_planar_fields(rng), kind='planar'))
     # histories of reads and edits on an in-memory image; every kind of read first after every kind of edit
-    for first in ('one', 'one', 'batch', 'whole', 'raw', 'decraw'):
+    def first_read(first, h, fnum):
+        if first == 'whole':
+            return ['whole']
+        if first in ('batch', 'frames'):
+            return [first, None, False]
+        if first in ('batchperm', 'framesperm'):
+            return [first[:-4], _request(rng, h['n'], False, rng.choice(HARD_ORDERS), maxlen=6), False]
+        return [first, fnum, False]
+
+    for first in ('one', 'one', 'batch', 'batchperm', 'frames', 'framesperm', 'whole', 'raw', 'decraw'):
         for ed in ('inplace', 'assign', 'header'):
             for warm in (True, True, False):
                 for _ in range(k):
@@ -410,14 +494,15 @@ def gen_cases(rng, tier):
                     else:
                         e = [ed, bytes(rng.randrange(256) for _ in range(ln)).hex()]
                     fnum = rng.randint(1, h['n'])
-                    rd = {'whole': ['whole'], 'batch': ['batch', None, False]}.get(first, [first, fnum, False])
-                    h['ops'] = ([['whole']] if warm else []) + [e, rd, ['one', fnum, False], ['batch', None, False], ['whole']]
+                    rd = first_read(first, h, fnum)
+                    h['ops'] = ([['whole']] if warm else []) + [e, rd, ['one', fnum, False],
+                                                                first_read('batchperm', h, fnum), ['whole']]
                     cases.append(dict(h, kind='history'))
     for _ in range(40 * k):
         cases.append(dict(_history_case(rng), kind='history'))
     # the same on a lazily read image: every kind of read first after a header edit, with the whole
     # array cached before the edit (warm) and not (cold); then random histories
-    for first in ('one', 'batch', 'whole', 'raw', 'decraw'):
+    for first in ('one', 'batch', 'batchperm', 'frames', 'framesperm', 'whole', 'raw', 'decraw'):
         for warm in (True, False):
             for _ in range(k):
                 for _ in range(50):
@@ -430,9 +515,10 @@ def gen_cases(rng, tier):
                 else:
                     cur['rows'], cur['cols'] = cur['cols'], cur['rows']
                 fnum = rng.randint(1, h['n'])
-                rd = {'whole': ['whole'], 'batch': ['batch', None, False]}.get(first, [first, fnum, False])
+                rd = first_read(first, h, fnum)
                 h['ops'] = ([['whole']] if warm else [['one', fnum, False]]) + [
-                    ['header', cur], rd, ['one', fnum, False], ['batch', None, False], ['whole'], ['one', fnum, False]]
+                    ['header', cur], rd, ['one', fnum, False], first_read('batchperm', h, fnum), ['whole'],
+                    ['one', fnum, False]]
                 cases.append(dict(h, kind='lazy_history'))
     for _ in range(24 * k):
         cases.append(dict(_history_case(rng, lazy=True), kind='lazy_history'))
@@ -440,6 +526,15 @@ def gen_cases(rng, tier):
                  'seg_image_ct_binary.dcm', 'ct_image.dcm'):
         for src in (['path', 'bytes'] if tier == 'quick' else SOURCES[1:]):
             cases.append({'kind': 'fixture', 'name': name, 'src': src})
+    # batches in every request order through every route (appended last: earlier streams keep their cases)
+    for _ in range(34 * k):
+        cases.append(dict(_batch_order_case(rng), kind='batch_order'))
+    for _ in range(6 * k):      # one frame, colour (a cached single colour frame has rank 3: D108) and mono
+        cases.append(dict(_batch_order_case(rng, n=1, colour=True), kind='batch_order'))
+    for _ in range(3 * k):
+        cases.append(dict(_batch_order_case(rng, n=1, colour=False), kind='batch_order'))
+    for _ in range(5 * k):
+        cases.append(dict(_batch_order_case(rng, n=2), kind='batch_order'))
     return cases
 
 
@@ -589,6 +684,47 @@ def _decode_kw(im):
                 bits_stored=im.BitsStored, photometric_interpretation=im.PhotometricInterpretation,
                 pixel_representation=im.PixelRepresentation,
                 planar_configuration=im.get('PlanarConfiguration'))
+
+
+# get_frames / get_frame with every transform switched off: the stored values in the dtype asked for
+NO_TRANSFORM = dict(apply_real_world_transform=False, apply_modality_transform=False, apply_voi_transform=False,
+                    apply_presentation_lut=False, apply_palette_color_lut=False, apply_icc_profile=False)
+
+
+def _arg(fs, how):
+    """The same request as a list, a tuple, a one-shot iterator or a numpy array."""
+    import numpy as np
+    if fs is None:
+        return None
+    if how == 'tuple':
+        return tuple(fs)
+    if how == 'iter':
+        return iter(list(fs))
+    if how == 'nparray':
+        return np.array(fs, dtype=np.int64)
+    return list(fs)
+
+
+def _ans(a, batch):
+    """What a caller sees of an answer: [[dtype, shape of one frame], values]."""
+    import numpy as np
+    a = np.asarray(a)
+    if batch:
+        return [[str(a.dtype), list(a.shape[1:])], a.reshape(a.shape[0], -1).tolist()]
+    return [[str(a.dtype), list(a.shape)], a.reshape(-1).tolist()]
+
+
+def _perm_request(n, salt):
+    """Deterministic shuffled request 1..n (not an involution for n >= 3) + one repeated number."""
+    import random
+    r = random.Random(1000003 * n + salt)
+    nums = list(range(1, n + 1))
+    for _ in range(20):
+        r.shuffle(nums)
+        order = sorted(range(n), key=lambda j: nums[j])
+        if n < 3 or any(order[order[j]] != j for j in range(n)):
+            break
+    return nums + [nums[0]]
 
 
 # --------------------------------------------------------------------------
@@ -756,7 +892,7 @@ def _all_paths(op, n, want_reader=True):
         try:
             out[name] = _digest(fn())
         except Exception as e:   # noqa: recorded per route, judged by the oracle
-            out[name] = f'raised {type(e).__name__}: {str(e)[:80]}'
+            out[name] = f'raised {type(e).__name__}: {str(e)[:120]}'
 
     def putraw(name, im):
         try:
@@ -773,6 +909,15 @@ def _all_paths(op, n, want_reader=True):
         kw = _decode_kw(im)
         raws = [im.get_raw_frame(k) for k in range(1, n + 1)]
         return raws, np.stack([decode_frame(r, index=k, **kw) for k, r in enumerate(raws)])
+
+    perm = _perm_request(n, len(op.data))
+
+    def unperm(a):
+        if len(a) != len(perm):
+            raise AssertionError(f'{len(a)} frames returned for {len(perm)} requested')
+        if not np.array_equal(a[-1], a[0]):
+            raise AssertionError(f'request {perm}: first and last entry ask for frame {perm[0]} but the answers differ')
+        return np.stack([a[perm.index(j)] for j in range(1, n + 1)])
 
     for lazy in (False, True):
         tag = 'lazy' if lazy else 'eager'
@@ -792,11 +937,19 @@ def _all_paths(op, n, want_reader=True):
         im = op.image(lazy)
         put(tag + '.batchfirst.batch', lambda: im.get_stored_frames(range(n), as_indices=True))
         put(tag + '.batchfirst.one', lambda: stack1(im))
+        # shuffled batch (with one repeat) first, put back into file order; get_frames (transforms off) cold
+        im = op.image(lazy)
+        put(tag + '.permfirst.batch', lambda: unperm(im.get_stored_frames(iter(perm))))
+        put(tag + '.permfirst.frames', lambda: unperm(im.get_frames(perm, dtype=ref.dtype, **NO_TRANSFORM)))
         # whole pixel array first, then everything from the cache
         im2 = op.image(lazy)
         put(tag + '.pixel_array', lambda: im2.pixel_array[None] if n == 1 else im2.pixel_array)
         put(tag + '.cached_one', lambda: stack1(im2))
         put(tag + '.cached_batch', lambda: im2.get_stored_frames())
+        put(tag + '.cached_perm', lambda: unperm(im2.get_stored_frames(perm)))
+        put(tag + '.cached_frames', lambda: im2.get_frames(dtype=ref.dtype, **NO_TRANSFORM))
+        put(tag + '.cached_frame1', lambda: np.stack([im2.get_frame(k, dtype=ref.dtype, **NO_TRANSFORM)
+                                                      for k in range(1, n + 1)]))
         putraw(tag + '.cached.raw', im2)
     if want_reader:
         with ImageFileReader(DicomBytesIO(op.data)) as r:
@@ -859,6 +1012,23 @@ def run_impl(c):
                     (not isinstance(raws, Err)) and lz_raws == raws and rd_raws == raws]
         finally:
             op.close()
+    if k == 'batch_order':
+        ds = _native_ds(c)
+        op = _Opened(_file_bytes(ds), c['src'], ds)
+        try:
+            with _Quiet():
+                ims = [op.image(False), op.image(False), op.image(True), op.image(True)]
+                ims[1].pixel_array
+                ims[3].pixel_array
+                out = []
+                for fs, ai, how in c['reqs']:
+                    row = [_catch(lambda: _ans(im.get_stored_frames(_arg(fs, how), as_indices=ai), True)) for im in ims]
+                    row += [_catch(lambda: _ans(im.get_frames(_arg(fs, how), as_indices=ai, dtype=np.int64,
+                                                              **NO_TRANSFORM), True)) for im in ims]
+                    out.append(row)
+                return out
+        finally:
+            op.close()
     if k == 'raw422':
         ds = _native_ds(c)
         ds.PhotometricInterpretation = 'YBR_FULL_422'
@@ -872,9 +1042,13 @@ def run_impl(c):
                 with ImageFileReader(DicomBytesIO(op.data)) as r:
                     rd_raws = _catch(lambda: [r.read_frame_raw(i) for i in range(n)])
                 paths = _catch(lambda: _all_paths(op, n))
-            agree = (not isinstance(paths, Err)) and len({v for kx, v in paths.items() if not kx.endswith('rawsha')}) == 1
+            if isinstance(paths, Err):
+                differ = f'an access path raised {paths.kind}'
+            else:       # '' when every route gives pydicom's array, else the routes that do not
+                differ = ', '.join(f'{kx} = {v}' for kx, v in paths.items()
+                                   if not kx.endswith('rawsha') and v != paths['pydicom'])[:400]
             return [raws if isinstance(raws, Err) else [list(x) for x in raws],
-                    (not isinstance(raws, Err)) and lz_raws == raws and rd_raws == raws, agree]
+                    (not isinstance(raws, Err)) and lz_raws == raws and rd_raws == raws, differ]
         finally:
             op.close()
     if k == 'index':
@@ -984,11 +1158,7 @@ def _run_history(c, lazy=False):
     now = {'n': c['n']}
     keep = []        # replaced values stay alive: pydicom recognises edits by id()
 
-    def ans(a, batch):
-        a = np.asarray(a)
-        if batch:
-            return [[str(a.dtype), list(a.shape[1:])], a.reshape(a.shape[0], -1).tolist()]
-        return [[str(a.dtype), list(a.shape)], a.reshape(-1).tolist()]
+    ans = _ans
 
     def do(im, o):
         t = o[0]
@@ -999,6 +1169,8 @@ def _run_history(c, lazy=False):
             return ans(im.get_stored_frame(o[1], as_index=o[2]), False)
         if t == 'batch':
             return ans(im.get_stored_frames(o[1], as_indices=o[2]), True)
+        if t == 'frames':
+            return ans(im.get_frames(o[1], as_indices=o[2], dtype=np.int64, **NO_TRANSFORM), True)
         if t == 'raw':
             return list(im.get_raw_frame(o[1], as_index=o[2]))
         if t == 'decraw':
@@ -1084,11 +1256,12 @@ def coq_term(c):
             n = cur['n']
             if t == 'whole':
                 ops.append('LWhole' if lz else 'OWhole')
-            elif t == 'batch':
+            elif t in ('batch', 'frames'):
                 fs, ai = (list(range(1, n + 1)), False) if o[1] is None else (o[1], o[2])
                 if o[1] is None and o[2]:
                     fs, ai = list(range(n)), True
-                ops.append(f"({'LBatch' if lz else 'OBatch'} {zl(fs)} {_b(ai)})")
+                nm = ('L' if lz else 'O') + ('Batch' if t == 'batch' else 'Frames')
+                ops.append(f"({nm} {zl(fs)} {_b(ai)})")
             elif t in ('one', 'raw', 'decraw'):
                 nm = {'one': 'One', 'raw': 'Raw', 'decraw': 'DecodeRaw'}[t]
                 ops.append(f"({'L' if lz else 'O'}{nm} {zlit(o[1])} {_b(o[2])})")
@@ -1099,13 +1272,16 @@ def coq_term(c):
                 ops.append(f"({'LHeader' if lz else 'OHeader'} {_cfmt(c, cur)})")
         return (f"({'run_lazy_history' if lz else 'run_history'} {_cfmt(c, c)} {zl(bytes.fromhex(c['pd']))} "
                 f"[{'; '.join(ops)}])")
+    if k == 'batch_order':
+        reqs = '; '.join(f"({zl(fs)}, {_b(ai)})" for fs, ai, _ in c['reqs'])
+        return f"(run_batch_order {_cfmt(c, c)} {zl(bytes.fromhex(c['pd']))} [{reqs}])"
     if k == 'raw422':
         m = f"(Fmt 8 8 false {c['rows'] * c['cols'] * 2} {c['n']})"
         pd = zl(bytes.fromhex(c['pd']))
         nums = zl(range(1, c['n'] + 1))
         return (f"(VL [vframes (sequence (map (fun f => get_raw_frame false {m} {pd} f false) {nums})); "
                 f"VB (res_eqb (sequence (map (fun f => get_raw_frame true {m} {pd} f false) {nums})) "
-                f"(sequence (map (fun f => get_raw_frame false {m} {pd} f false) {nums}))); VB true])")
+                f"(sequence (map (fun f => get_raw_frame false {m} {pd} f false) {nums}))); VS \"\"])")
     if k == 'index':
         return f"(run_native_one {_native_args(c)} {zlit(c['f'])} {_b(c['as_index'])})"
     if k in ('reader_index', 'reader_neg') and not c.get('enc'):
@@ -1180,6 +1356,39 @@ def oracle(c, out):
         if not raws_ok:
             return 'raw frame bytes differ between eager, lazy and ImageFileReader'
         return None
+    if k == 'batch_order':
+        # entry j of every answer = the frame whose number is entry j of the request, straight from the bytes
+        ref = _np_reference(c)
+        n = c['n']
+        want_shape = [c['rows'], c['cols']] + ([3] if c['spp'] == 3 else [])
+        stored_dt = 'uint8' if c['bits'] == 1 else ('int' if c['signed'] else 'uint') + str(c['bits'])
+        routes = ['in-memory get_stored_frames', 'in-memory (pixel_array cached) get_stored_frames',
+                  'lazy get_stored_frames', 'lazy (pixel_array cached) get_stored_frames',
+                  'in-memory get_frames', 'in-memory (pixel_array cached) get_frames',
+                  'lazy get_frames', 'lazy (pixel_array cached) get_frames']
+        for q, ((fs, ai, how), row) in enumerate(zip(c['reqs'], out)):
+            idx = [(f if ai else f - 1) for f in fs]
+            valid = all(0 <= i < n for i in idx)
+            for nm, got in zip(routes, row):
+                where = f'request {q} {nm}({fs}, as_indices={ai}) [{how}] on {n} frames'
+                if not valid:
+                    if not (isinstance(got, Err) and got.kind == 'IndexError'):
+                        return f'{where}: a number is outside the image, expected IndexError, got {str(got)[:60]}'
+                    continue
+                if isinstance(got, Err):
+                    return f'{where}: raised {got.kind} on a valid request'
+                (dt, shape), vals = got
+                want_dt = 'int64' if 'get_frames' in nm else stored_dt
+                if dt != want_dt or list(shape) != want_shape:
+                    return f'{where}: dtype/shape {dt}{shape}, expected {want_dt}{want_shape}'
+                if len(vals) != len(idx):
+                    return f'{where}: {len(vals)} frames returned for {len(idx)} requested'
+                bad = [j for j, i in enumerate(idx) if vals[j] != ref[i].tolist()]
+                if bad:
+                    found = [next((i for i in range(n) if vals[j] == ref[i].tolist()), '?') for j in bad]
+                    return (f'{where}: positions {bad} of the answer are not the requested frames '
+                            f'(they hold frame indices {found}, requested {[idx[j] for j in bad]})')
+        return None
     if k == 'index':
         e = _expect_index(c)
         ref = _np_reference(c)
@@ -1208,8 +1417,8 @@ def oracle(c, out):
                 return f'raw frame {i} of a YBR_FULL_422 image is not bytes [{i * fl},{(i + 1) * fl})'
         if not same:
             return 'YBR_FULL_422 raw frames differ between eager, lazy and reader'
-        if not agree:
-            return 'YBR_FULL_422 stored frames differ between access paths / pydicom'
+        if agree != '':
+            return f'YBR_FULL_422 stored frames differ from pydicom pixel_array: {agree}'
         return None
     if k == 'reader_neg':
         if c.get('enc'):
@@ -1324,7 +1533,9 @@ def _oracle_history(c, out):
         want_shape = [cur['rows'], cur['cols']] + ([3] if spp == 3 else [])
         if t == 'whole':
             idx = list(range(n))
-        elif t == 'batch':
+        elif t in ('batch', 'frames'):
+            if t == 'frames':
+                want_dt = 'int64'       # get_frames answers in the dtype asked for
             nums, ai = (range(1, n + 1), False) if o[1] is None else (o[1], o[2])
             if o[1] is None and o[2]:
                 nums, ai = range(n), True
@@ -1346,7 +1557,7 @@ def _oracle_history(c, out):
         (dt, shape), vals = got
         if dt != want_dt or list(shape) != want_shape:
             return f'{where}: dtype/shape {dt}{shape}, the image now says {want_dt}{want_shape}'
-        want = [ref[i].tolist() for i in idx] if t in ('whole', 'batch') else ref[idx[0]].tolist()
+        want = [ref[i].tolist() for i in idx] if t in ('whole', 'batch', 'frames') else ref[idx[0]].tolist()
         if vals != want:
             return f'{where}: values are not those of the current PixelData / header (stale or scrambled)'
     return None
@@ -1379,6 +1590,8 @@ def nontrivial(c, out):
     k = c['kind']
     if k in ('native', 'raw422', 'planar'):
         return c['n'] > 1
+    if k == 'batch_order':
+        return any(len(fs) > 1 for fs, _, _ in c['reqs'])
     if k in ('history', 'lazy_history'):
         return any(o[0] in ('assign', 'inplace', 'header') for o in c['ops'])
     if k in ('index', 'reader_index', 'reader_neg'):
@@ -1398,6 +1611,21 @@ def shrink(c):
             yield dict(c, ops=ops[:i] + ops[i + 1:])
         if c['src'] != 'dataset':
             yield dict(c, src='dataset')
+        if c['ts'] != 'explicit':
+            yield dict(c, ts='explicit')
+    if k == 'batch_order':
+        reqs = c['reqs']
+        if len(reqs) > 1:
+            for i in range(len(reqs)):
+                yield dict(c, reqs=reqs[:i] + reqs[i + 1:])
+        for i, (fs, ai, how) in enumerate(reqs):
+            if len(fs) > 1:
+                for j in range(len(fs)):
+                    yield dict(c, reqs=reqs[:i] + [[fs[:j] + fs[j + 1:], ai, how]] + reqs[i + 1:])
+            if how != 'list':
+                yield dict(c, reqs=reqs[:i] + [[fs, ai, 'list']] + reqs[i + 1:])
+        if c['src'] != 'bytes':
+            yield dict(c, src='bytes')
         if c['ts'] != 'explicit':
             yield dict(c, ts='explicit')
     if k in ('native', 'index', 'reader_index', 'planar') and 'enc' not in c:
